@@ -27,13 +27,13 @@ QUAT = ["qdist", "qeip", "qcip", "qad"]
 TRIANGLE = ["chordal", "identity_deviation", "angular_distance", "qdist", "qcip", "qad"]
 BATCH = ["chordal", "qdist", "qeip", "qcip", "qad"]
 ROUTES = MATRIX + QUAT + [f + "[batch]" for f in BATCH]
-T_REGIONS = ["tiny", "small", "band", "mid", "nearpi", "nearpi_close", "exact_pi", "right_angle"]
+T_REGIONS = ["tiny", "small", "band", "mid", "nearpi", "nearpi_close", "exact_pi", "exact_pi_axis", "right_angle"]
 REGIONS = {"t:" + r: 40 for r in T_REGIONS}
 REGIONS["triple"] = 100
 PROBES = [("ahrs.utils.metrics", f) for f in MATRIX + QUAT] + [("ahrs.common.dcm", "DCM.log")]
 REQUIRED_PROBES = ["metrics." + f for f in MATRIX + QUAT] + ["dcm.DCM.log"]
 RULE = ("pair cases: q1 Haar-random, q2 = q1 * (axis, t) with the relative angle t drawn per region: 1e-4..1e-3, 1e-3..1e-2, 1e-3..2e-2 "
-        "(around the removed isclose(trace,3) band), 1e-2..3, pi-1e-1..pi-1e-6, pi-1e-6..pi-1e-12, exactly pi, exactly pi/2; each pair is "
+        "(around the removed isclose(trace,3) band), 1e-2..3, pi-1e-1..pi-1e-6, pi-1e-6..pi-1e-12, exactly pi (incl. axis-aligned pairs whose 4-vectors are exactly orthogonal), exactly pi/2; each pair is "
         "evaluated in 5 forms (as is, swapped, one quaternion negated, both left-multiplied, both right-multiplied by a random g) "
         "for all 7 functions and as 2..4-row batches; triple cases: three random rotations (incl. close ones) for the triangle "
         "inequality; non-trivial = t > 0")
@@ -52,7 +52,7 @@ def tol_for(name, t):
 def draw_t(rng, reg):
     return {"tiny": lambda: gens.logu(rng, 1e-4, 1e-3), "small": lambda: gens.logu(rng, 1e-3, 1e-2), "band": lambda: gens.logu(rng, 1e-3, 2e-2),
             "mid": lambda: float(rng.uniform(1e-2, 3.0)), "nearpi": lambda: float(np.pi - gens.logu(rng, 1e-6, 1e-1)),
-            "nearpi_close": lambda: float(np.pi - gens.logu(rng, 1e-12, 1e-6)), "exact_pi": lambda: float(np.pi),
+            "nearpi_close": lambda: float(np.pi - gens.logu(rng, 1e-12, 1e-6)), "exact_pi": lambda: float(np.pi), "exact_pi_axis": lambda: float(np.pi),
             "right_angle": lambda: float(np.pi / 2)}[reg]()
 
 
@@ -61,7 +61,12 @@ def generate(rng, tier, shard, nshards):
     for i in range(n):
         reg = T_REGIONS[i % len(T_REGIONS)]
         ax = gens.axis(rng) if i % 5 else gens.AXIS_ALIGNED[rng.integers(6)].copy()
-        yield Case("pair", "t:" + reg, q1=gens.unit(rng), axis=ax, t=draw_t(rng, reg), g=gens.unit(rng), rows=int(rng.integers(2, 5)),
+        q1 = gens.unit(rng)
+        if reg == "exact_pi_axis":      # q1 and q2 exactly orthogonal 4-vectors (inner product exactly 0)
+            q1 = np.zeros(4)
+            q1[int(rng.integers(4))] = 1.0
+            ax = gens.AXIS_ALIGNED[int(rng.integers(6))].copy()
+        yield Case("pair", "t:" + reg, q1=q1, axis=ax, t=draw_t(rng, reg), g=gens.unit(rng) if reg != "exact_pi_axis" else np.array([1.0, 0, 0, 0]), rows=int(rng.integers(2, 5)),
                    scale=gens.logu(rng, 0.1, 10.0))
     for i in range(gens.budget(300, tier, nshards)):
         a = gens.unit(rng)
@@ -85,7 +90,7 @@ def nontrivial(case):
 def check_pair(case, ctx):
     from ahrs.utils import metrics as M
     q1, ax, t, g, sc = case.p["q1"], case.p["axis"], case.p["t"], case.p["g"], case.p["scale"]
-    q2 = rq.qmul(q1, rq.axang2q(ax, t)) if case.region != "t:exact_pi" else rq.qmul(q1, np.r_[0.0, ax])
+    q2 = rq.qmul(q1, rq.axang2q(ax, t)) if case.region not in ("t:exact_pi", "t:exact_pi_axis") else rq.qmul(q1, np.r_[0.0, ax])
     forms = {"as is": (q1, q2), "swapped": (q2, q1), "negated": (q1, -q2), "left-multiplied": (rq.qmul(g, q1), rq.qmul(g, q2)),
              "right-multiplied": (rq.qmul(q1, g), rq.qmul(q2, g))}
     for name in MATRIX + QUAT:
